@@ -33,8 +33,10 @@ type c18Env struct {
 	a, b    *ProxyInst // same name, different instances
 	la, lb  *ProxyInst // loop pair: la -> lb -> la
 	laa     *ProxyInst // self loop
+	anon, odd *ProxyInst // instances named "" and "my proxy/1.0 (x)"
 	cx, cxh *ProxyInst // behind an upstream HTTP proxy that records the CONNECTs it gets; cxh also has a --connect-header rule
 	own     map[*ProxyInst]string
+	noVia   map[*ProxyInst]bool // instances that were seen forwarding a request without adding their element
 }
 
 var (
@@ -91,7 +93,7 @@ func getEnv18() (*c18Env, error) {
 			env18Err = err
 			return
 		}
-		e := &c18Env{base: base, own: map[*ProxyInst]string{}}
+		e := &c18Env{base: base, own: map[*ProxyInst]string{}, noVia: map[*ProxyInst]bool{}}
 		mk := func(o ProxyOpts) *ProxyInst {
 			if env18Err != nil {
 				return nil
@@ -110,13 +112,20 @@ func getEnv18() (*c18Env, error) {
 		e.la = mk(ProxyOpts{ListenAddr: addrA, Upstream: "http://" + addrB})
 		e.lb = mk(ProxyOpts{ListenAddr: addrB, Upstream: "http://" + addrA})
 		e.laa = mk(ProxyOpts{ListenAddr: addrS, Upstream: "http://" + addrS})
+		e.anon = mk(ProxyOpts{NoName: true})
+		e.odd = mk(ProxyOpts{Name: "edge-7.example"})
 		e.cx = mk(ProxyOpts{Upstream: "http://" + base.upstream.Addr})
 		e.cxh = mk(ProxyOpts{Upstream: "http://" + base.upstream.Addr, ConnectHeaders: []string{"X-C18-Connect: yes"}})
 		if env18Err != nil {
 			return
 		}
-		for _, p := range []*ProxyInst{e.a, e.b, e.cx, e.cxh} {
+		for _, p := range []*ProxyInst{e.a, e.b, e.cx, e.cxh, e.anon, e.odd} {
 			v, err := learnOwnVia(base, p, base.origin.Addr, false)
+			if err != nil && strings.Contains(err.Error(), "no Via at origin") {
+				// not a harness problem: this instance forwards without adding its element (reported by every case that uses it)
+				e.noVia[p] = true
+				continue
+			}
 			if err != nil {
 				env18Err = fmt.Errorf("learning own Via: %w", err)
 				return
@@ -141,7 +150,7 @@ var c18Others = []string{"1.1 other", "1.0 fred", "1.1 p.example.net:8080", "1.1
 	"1.1 edge (Acme \\(edge gateway)", "1.1 gw (build 12\\) rc)", "1.1 c (a, b)", "1.1 n (nested (deep (er)) comment)", "1.1 q (say \\\"hi\\\")", "1.1 e ()", "1.1 bs (back\\\\slash)"}
 
 func genC18(t *rapid.T) C18Case {
-	c := C18Case{Mode: rapid.SampledFrom([]string{"chain", "chain", "chain", "chain-mitm", "loop-aa", "loop-aba", "chain-connect", "chain-connect-hdr"}).Draw(t, "mode")}
+	c := C18Case{Mode: rapid.SampledFrom([]string{"chain", "chain", "chain", "chain-mitm", "loop-aa", "loop-aba", "chain-connect", "chain-connect-hdr", "chain-anon", "chain-named"}).Draw(t, "mode")}
 	n := rapid.IntRange(0, 5).Draw(t, "nelems")
 	for i := 0; i < n; i++ {
 		c.Elems = append(c.Elems, rapid.SampledFrom(c18Others).Draw(t, "elem"))
@@ -182,6 +191,10 @@ func runC18(c C18Case) (fails []vstat.Failure) {
 		px = e.a
 	case "chain-mitm":
 		px, mitm = base.proxies["mitm"], true
+	case "chain-anon":
+		px = e.anon
+	case "chain-named":
+		px = e.odd
 	case "chain-connect":
 		px = e.cx
 	case "chain-connect-hdr":
@@ -192,6 +205,9 @@ func runC18(c C18Case) (fails []vstat.Failure) {
 		px = e.la
 	}
 	own := e.own[px]
+	if e.noVia[px] {
+		return []vstat.Failure{vstat.Failf(key("no-own-element"), "the instance used by mode %q forwards requests without adding a Via element of its own", c.Mode)}
+	}
 	// render the Via lines
 	var elems []string
 	hasOwn := false
